@@ -132,7 +132,8 @@ def partial_transpose(
         dim = np.array([[sqrt_rho_dims[0], sqrt_rho_dims[0]], [sqrt_rho_dims[1], sqrt_rho_dims[1]]])
     if isinstance(dim, float):
         dim = np.array([dim])
-    if isinstance(dim, list):
+    if isinstance(dim, (list, np.ndarray)):
+        # np.array copies, so the caller's array is not modified when the dimensions are exchanged below.
         dim = np.array(dim)
     if isinstance(sys, list):
         sys = np.array(sys)
